@@ -123,13 +123,14 @@ BFS_QUICK = ["1", "2", "1 1", "2 1", "1 2", "0 2 1", "1 1 1"]
 BFS_THOROUGH = BFS_QUICK + ["3", "2 2"]
 
 
-def post(tier, rng, api):
+def post(tier, rng, api, publication=True):
     """Exhaustive exploration of the extracted model for small scripts: every
     reachable state satisfies the boolean invariants, the measure decreases on
     every non-spurious step, no deadlock, final states satisfy the observations."""
     drv = api["driver_bin"]("pool")
     scripts = BFS_QUICK if tier == "quick" else BFS_THOROUGH
-    rc, lines, err, dt = api["run_lines"](drv, "pool-bfs", scripts, 600)
+    # C07 does not speak about publication: the views are not inspected there
+    rc, lines, err, dt = api["run_lines"](drv, "pool-bfs", [s if publication else s + " ; nopub" for s in scripts], 600)
     res = {"evaluations": 0, "streams": [], "samples": [], "nontrivial_keys": []}
     bad = []
     states = 0
